@@ -184,7 +184,7 @@ def allowance(method, orc, n, x, step):
 # ---------------------------------------------------------------------------------------------
 # bounds
 
-BOUND_KINDS = ['none', 'inside', 'lower-face', 'upper-face', 'corner', 'degenerate', 'hairline']
+BOUND_KINDS = ['none', 'inside', 'lower-face', 'upper-face', 'corner', 'degenerate', 'hairline', 'half-open']
 
 
 def make_bounds(kind, x, j0):
@@ -210,6 +210,18 @@ def make_bounds(kind, x, j0):
             lb[j0] = x[j0] - 1e-12 * X[j0]
         else:
             ub[j0] = x[j0] + 1e-12 * X[j0]
+    elif kind == 'half-open':
+        # a box with some infinite sides: even coordinates are only bounded above, odd ones only below;
+        # coordinate j0 sits on its finite side
+        for j in range(n):
+            if j % 2 == 0:
+                lb[j] = -np.inf
+            else:
+                ub[j] = np.inf
+        if j0 % 2 == 0:
+            ub[j0] = x[j0]
+        else:
+            lb[j0] = x[j0]
     elif kind == 'lower-face':
         lb[j0] = x[j0]
     elif kind == 'upper-face':
@@ -388,7 +400,7 @@ def run_one(case):
 def bound_variants(n, m, full):
     out = [('none', 0)]
     j0s = range(n) if full else [(n + m) % n]
-    for kind in ('inside', 'lower-face', 'upper-face', 'degenerate', 'hairline'):
+    for kind in ('inside', 'lower-face', 'upper-face', 'degenerate', 'hairline', 'half-open'):
         out += [(kind, j) for j in j0s]
     out += [('corner', p) for p in ((0, 1) if full else ((n + m) % 2,))]
     return out
@@ -417,7 +429,7 @@ def unit_cases(unit, full):
         for shp in xshapes(n):
             for method in METHODS:
                 for step in STEPS:
-                    for kind, j0 in (('none', 0), ('inside', (n + 1) % n), ('corner', n % 2), ('hairline', 0)):
+                    for kind, j0 in (('none', 0), ('inside', (n + 1) % n), ('corner', n % 2), ('hairline', 0), ('half-open', (n + 1) % n)):
                         for e in (0, 1):
                             yield dict(api=api, n=n, m=1, map=list(spec), pt=pt, method=method, step=step,
                                        bounds=kind, j0=j0, extras=e, xshape=shp)
@@ -601,7 +613,7 @@ def run(ctx):
 
     req = ['J:%s:step=%s:bounds=%s' % (mth, step_name(s), b) for mth in METHODS for s in STEPS for b in BOUND_KINDS]
     req += ['G:%s:step=%s:bounds=%s' % (mth, step_name(s), b) for mth in METHODS for s in STEPS
-            for b in ('none', 'inside', 'corner', 'hairline')]
+            for b in ('none', 'inside', 'corner', 'hairline', 'half-open')]
     req += ['J:n=%d' % n for n in range(1, 7)] + ['G:n=%d' % n for n in range(1, 7)]
     req += ['J:m=%d' % m for m in range(1, 6)] + ['J:affine', 'J:ridge', 'G:affine', 'G:ridge',
                                                    'J:extras=0', 'J:extras=1', 'G:extras=0', 'G:extras=1',
